@@ -23,7 +23,7 @@ def _embed(v):
     return out
 
 
-def case_rigid(kind, rot_idx, origin_idx):
+def case_rigid(kind, rot_idx, origin_idx, n_points=None):
     from elastica.rod.data_structures import overload_operator_kinematic_numba
 
     planar = kind == "cylinder2d"
@@ -39,7 +39,7 @@ def case_rigid(kind, rot_idx, origin_idx):
     for bi, b in enumerate(basis):
         if planar and (b[2] != 0 or b[3] != 0 or b[4] != 0) and bi < 6:
             continue
-        body, grid = bodies.make_rigid(kind, rot, origin)
+        body, grid = bodies.make_rigid(kind, rot, origin, n_points=n_points)
         d = grid.grid_dim
         body.velocity_collection[:, 0] = b[:3]
         body.omega_collection[:, 0] = b[3:]
@@ -61,7 +61,7 @@ def case_rigid(kind, rot_idx, origin_idx):
         # pose advance with PyElastica's own kinematic update
         errs = []
         for delta in (1e-3, 5e-4):
-            body2, grid2 = bodies.make_rigid(kind, rot, origin)
+            body2, grid2 = bodies.make_rigid(kind, rot, origin, n_points=n_points)
             body2.velocity_collection[...] = body.velocity_collection
             body2.omega_collection[...] = body.omega_collection
             grid2.compute_lag_grid_position_field()
@@ -206,6 +206,12 @@ def run(r) -> None:
         for ri in range(nrot):
             for oi in (0, 1):
                 rigid.append(dict(kind=kind, rot_idx=ri, origin_idx=oi))
+    # marker-count alphabet (odd x odd plane grids have a marker exactly at the body origin; minimal counts)
+    for kind, counts in bodies.RIGID_COUNTS.items():
+        nrot = len(bodies.rotations_2d() if kind == "cylinder2d" else bodies.rotations_3d())
+        for n in counts:
+            for ri in (0, nrot - 1):
+                rigid.append(dict(kind=kind, rot_idx=ri, origin_idx=1, n_points=n))
     r.run_cases("rigid-grids", "rigid", rigid, chunksize=4)
     rods = []
     for kind in bodies.ROD_GRIDS:
@@ -222,7 +228,7 @@ def run(r) -> None:
                         if bent and density == dens[0]:
                             rods.append(dict(kind=kind, n_elems=n_elems, taper=taper, bent=bent, rot_idx=nrot - 1, density=density, seed=r.seed, finalize=True))
     r.run_cases("rod-grids", "rod", rods, chunksize=8)
-    r.bounds = {"rigid": bodies.RIGID, "rod_grids": bodies.ROD_GRIDS, "rotations_3d": "24 cube rotations + 3 generic", "rotations_2d": 7, "n_elems": [2, 3, 5],
+    r.bounds = {"rigid_marker_counts": bodies.RIGID_COUNTS, "rigid": bodies.RIGID, "rod_grids": bodies.ROD_GRIDS, "rotations_3d": "24 cube rotations + 3 generic", "rotations_2d": 7, "n_elems": [2, 3, 5],
                 "velocity_basis": "6 unit (V, Omega) + 1 generic (rigid); every node x component, every element x material-frame component + 1 generic (rods)", "delta": [1e-3, 5e-4]}
     r.extra["rule"] = "one state per (grid, body parameters, pose, velocity basis member)"
     r.assumptions = ["PyElastica's kinematic update (overload_operator_kinematic_numba) defines 'advancing the pose'", "element velocity = PyElastica's mass-weighted node average (re-derived, not imported)"]
